@@ -615,7 +615,16 @@ func procCase0(h *hctx, sc *procScenario, pre *procRun) {
 
 	// --- what an honest observer expects -------------------------------------------------------
 	// honest(i): step i hands over the publisher's own unit from its designated sender
-	isHonest := func(st procStepT) bool { return st.Corrupt == "" && st.Sender == "legit" }
+	// (by the RESOLVED sender: in a committee of 2 "other" finds nobody else and stays the designated
+	// sender; "publisher" is the designated sender of the local shard)
+	isHonest := func(st procStepT) bool {
+		if st.Corrupt != "" {
+			return false
+		}
+		u, snd := w.stepUnit(st)
+		ls, ok := legitSender(w.sched, w.local.id, w.pub.id, int(u.ShardIndex))
+		return ok && snd == ls
+	}
 	seenIdx := map[int]bool{}
 	distinct := 0
 	builtAt := -1
